@@ -10,7 +10,7 @@
 (* address, or create a flow.  Draw's precondition DrawOK IS the property   *)
 (* (C17): every index the renderers use refers to an existing entry of the  *)
 (* data being displayed.  Commands are transcribed with the guards of the   *)
-(* implementation (as repaired, see known_findings.jsonl F12 / F20 / F21 / F22).        *)
+(* implementation (as repaired, see known_findings.jsonl F12 / F20 / F21 / F22 / F25).        *)
 (* Privacy (C18): expand / contract move the level one step within          *)
 (* off (-1), 0 .. hop count.                                                *)
 (***************************************************************************)
@@ -91,8 +91,14 @@ Key(newSel, newFlow, newAddr, newTrace, newShow, newFrozen, newPriv, newData) ==
 
 NextHop == HC > 0 /\ Key(IF sel = -1 THEN 0 ELSE IF sel < HC - 1 THEN sel + 1 ELSE sel, selFlow, 0, traceSel, showFlows, frozen, privacy, data)
 PrevHop == HC > 0 /\ Key(IF sel = -1 THEN HC - 1 ELSE IF sel > 0 THEN sel - 1 ELSE sel, selFlow, 0, traceSel, showFlows, frozen, privacy, data)
-NextTrace == ~showFlows /\ NTraces > 1 /\ traceSel < NTraces - 1 /\ Key(-1, selFlow, 0, traceSel + 1, showFlows, frozen, privacy, data)
-PrevTrace == ~showFlows /\ NTraces > 1 /\ traceSel > 0 /\ Key(-1, selFlow, 0, traceSel - 1, showFlows, frozen, privacy, data)
+\* next_trace / previous_trace (as repaired, F25): the displayed snapshot and the flow counts are refreshed for the
+\* newly selected trace, also while frozen (the frozen snapshot belongs to another trace)
+SwitchTrace(t) == /\ pc = "key" /\ pc' = "tick"
+                  /\ sel' = -1 /\ selAddr' = 0 /\ traceSel' = t
+                  /\ view' = data[t] /\ flowCounts' = data[t].flows
+                  /\ UNCHANGED <<data, selFlow, showFlows, frozen, privacy>>
+NextTrace == ~showFlows /\ NTraces > 1 /\ traceSel < NTraces - 1 /\ SwitchTrace(traceSel + 1)
+PrevTrace == ~showFlows /\ NTraces > 1 /\ traceSel > 0 /\ SwitchTrace(traceSel - 1)
 \* next_flow / previous_flow: find_position(...).unwrap() needs the selected flow among the flow counts
 \* the flow counts are ordered by the number of rounds of each flow, which this model does not track: the
 \* neighbour of the selected flow in that order is some flow of the flow counts
